@@ -11,7 +11,7 @@ arbitrary INV-state.
   prim/*   pallas-codec Decoder primitives (real MIR of the dependency, as built from Cargo.lock)
   dec/*    uplc flat.rs: Program/Term (decode and decode_debug)/Constant/decode_constant_value/decode_type/builtin/binders
   fromstr  DefaultFunction::from_str on a symbolic identifier
-Outside: CBOR/hex layers, JSON loading, Aiken lexer/parser/formatter, the peg UPLC grammar (see DESIGN.md).
+Outside: CBOR/hex layers, JSON loading, Aiken lexer/parser/formatter, the matching code of the peg UPLC grammar (its semantic actions over matched text are in: act families; see DESIGN.md).
 """
 from __future__ import annotations
 
@@ -377,6 +377,243 @@ def act_family(world: World, res: Result, tier: str):
     res.add(ob)
 
 
+
+# ---- text-capturing rules of the peg grammar:  rule r() -> T = x:$(PATTERN) { action } ---------------------------------------------
+
+class _PegUnsupported(Exception):
+    pass
+
+
+def _peg_to_re(src):
+    """Translate the peg pattern subset (string literals, character classes, grouping, / * + ?) to a z3 regular expression over bytes.
+    Every string a PEG pattern matches is in the regular language of the same expression, so the language is an over-approximation of
+    the captured text (ordered choice / possessive repetition can only remove strings)."""
+    from mirsym.summaries import _re_unit
+    pos = [0]
+
+    def ws():
+        while pos[0] < len(src) and src[pos[0]].isspace():
+            pos[0] += 1
+
+    def char_lit():
+        if src[pos[0]] != "'":
+            raise _PegUnsupported("character literal expected")
+        pos[0] += 1
+        ch = src[pos[0]]
+        if ch == "\\":
+            pos[0] += 1
+            ch = {"n": "\n", "r": "\r", "t": "\t", "\\": "\\", "'": "'", '"': '"', "0": "\0"}.get(src[pos[0]])
+            if ch is None:
+                raise _PegUnsupported("escape")
+        if ord(ch) >= 0x80:
+            raise _PegUnsupported("non-ASCII class")
+        pos[0] += 1
+        if src[pos[0]] != "'":
+            raise _PegUnsupported("character literal")
+        pos[0] += 1
+        return ch
+
+    def atom():
+        ws()
+        c = src[pos[0]]
+        if c == '"':
+            j = pos[0] + 1
+            out = []
+            while src[j] != '"':
+                if src[j] == "\\" or ord(src[j]) >= 0x80:
+                    raise _PegUnsupported("escape in literal")
+                out.append(src[j])
+                j += 1
+            pos[0] = j + 1
+            if not out:
+                return z3.Re(z3.Empty(z3.SeqSort(z3.BitVecSort(8))))
+            rs = [_re_unit(ch) for ch in out]
+            return rs[0] if len(rs) == 1 else z3.Concat(*rs)
+        if c == "[":
+            pos[0] += 1
+            ws()
+            if src[pos[0]] == "^":
+                raise _PegUnsupported("negated class")
+            alts = []
+            while True:
+                ws()
+                a = char_lit()
+                ws()
+                if src.startswith("..=", pos[0]):
+                    pos[0] += 3
+                    ws()
+                    b = char_lit()
+                    alts.extend(chr(k) for k in range(ord(a), ord(b) + 1))
+                else:
+                    alts.append(a)
+                ws()
+                if src[pos[0]] == "|":
+                    pos[0] += 1
+                    continue
+                if src[pos[0]] == "]":
+                    pos[0] += 1
+                    break
+                raise _PegUnsupported("class syntax")
+            rs = [_re_unit(ch) for ch in alts]
+            return rs[0] if len(rs) == 1 else z3.Union(*rs)
+        if c == "(":
+            pos[0] += 1
+            r = choice()
+            ws()
+            if src[pos[0]] != ")":
+                raise _PegUnsupported("unbalanced")
+            pos[0] += 1
+            return r
+        raise _PegUnsupported(f"pattern element {c!r}")
+
+    def postfix():
+        r = atom()
+        while True:
+            ws()
+            if pos[0] < len(src) and src[pos[0]] in "*+?":
+                r = {"*": z3.Star, "+": z3.Plus, "?": z3.Option}[src[pos[0]]](r)
+                pos[0] += 1
+            else:
+                return r
+
+    def seq():
+        rs = []
+        while True:
+            ws()
+            if pos[0] >= len(src) or src[pos[0]] in "/)":
+                break
+            rs.append(postfix())
+        if not rs:
+            raise _PegUnsupported("empty sequence")
+        return rs[0] if len(rs) == 1 else z3.Concat(*rs)
+
+    def choice():
+        rs = [seq()]
+        while True:
+            ws()
+            if pos[0] < len(src) and src[pos[0]] == "/":
+                pos[0] += 1
+                rs.append(seq())
+            else:
+                return rs[0] if len(rs) == 1 else z3.Union(*rs)
+
+    try:
+        r = choice()
+        ws()
+        if pos[0] != len(src):
+            raise _PegUnsupported("trailing input")
+        return r
+    except IndexError:
+        raise _PegUnsupported("truncated pattern")
+
+
+def _capture_rules(path="/repo/crates/uplc/src/parser.rs"):
+    """[(rule name, pattern text)] for the rules of shape `rule r() -> T = x:$(PATTERN) {...}` read from the current grammar source"""
+    import re as _re
+    txt = open(path).read()
+    out = []
+    for m in _re.finditer(r"rule\s+(\w+)\s*\(\)\s*->\s*[^=\n]+?\s*=\s*\w+:\$\(", txt):
+        i = m.end()
+        depth, j, instr = 1, i, None
+        while j < len(txt) and depth:
+            ch = txt[j]
+            if instr:
+                if ch == "\\":
+                    j += 1
+                elif ch == instr:
+                    instr = None
+            elif ch in "\"'":
+                instr = ch
+            elif ch == "(":
+                depth += 1
+            elif ch == ")":
+                depth -= 1
+            j += 1
+        rest = txt[j:].lstrip()
+        if depth == 0 and rest.startswith("{"):
+            out.append((m.group(1), txt[i:j - 1]))
+    return out
+
+
+# where each captured rule is used, to replay a panic through the public parser
+_ACT_CONTEXT = {"big_number": "(program 1.0.0 (con integer {}))", "decimal": "(program 1.0.0 (constr {}))", "boolean": "(program 1.0.0 (con bool {}))"}
+
+
+def capture_family(world: World, res: Result, tier: str):
+    """semantic actions over captured text: the PATTERN of the rule is read from the grammar source and bounds the symbolic text (regular
+    language, length <= N); the action closure is executed from MIR; a feasible panic is replayed through uplc::parser::program"""
+    from mirsym.summaries import ByteSeq, _concrete_bytes
+    N = 24 if tier == "quick" else 40
+    rules = _capture_rules()
+    if not rules:
+        res.add(Obligation("act/captures", "undecided", "no text-capturing rule found in the grammar source (grammar restructured?)"))
+        return
+    for rname, pat in rules:
+        name = f"act/{rname}"
+        ob = Obligation(name, "discharged", "")
+        ex = world.executor(timeout_ms=30000, max_paths=400, max_steps=20000)
+        try:
+            fname = f"__parse_{rname}::{{closure#0}}"
+            fn = world.main.functions.get(fname)
+            if fn is None:
+                raise Unsupported(f"semantic action of rule {rname}() not found in MIR")
+            rex = _peg_to_re(pat)
+            s = z3.Const(f"text_{rname}", ByteSeq)
+            outs = None
+            last = None
+            for byref in (False, True):
+                st = ex.new_state()
+                st.pc.append(z3.InRe(s, rex))
+                st.pc.append(z3.Length(s) <= N)
+                sref = ex.alloc(st, Str(s))
+                if byref:
+                    sref = ex.alloc(st, sref)
+                clos = ex.alloc(st, Tup((sref,)))
+                try:
+                    outs = ex.run(fn, [clos], st)
+                    break
+                except Unsupported as e:
+                    last = e
+            if outs is None:
+                raise last
+        except _PegUnsupported as e:
+            ob.status, ob.detail = "undecided", f"pattern {pat!r} outside the translated peg subset: {e}"
+            res.add(ob)
+            continue
+        except Unsupported as e:
+            ob.status, ob.detail = "undecided", str(e)
+            res.add(ob)
+            continue
+        npanic = nret = 0
+        for o in outs:
+            if o.kind == "undecided":
+                ob.status, ob.detail = "undecided", o.msg
+            elif o.kind == "panic":
+                npanic += 1
+                m = ex.model(o.pc)
+                text = None
+                if m is not None:
+                    try:
+                        text = _concrete_bytes(m.eval(s, True)).decode()
+                    except Exception:
+                        text = None
+                vb = Obligation(name + "/panic", "violated", f"the action of grammar rule {rname}() panics on the matched text {text!r}: {o.msg}")
+                ctx = _ACT_CONTEXT.get(rname)
+                vb.model = {"captured": text}
+                if ctx and text is not None:
+                    vb.model["text"] = ctx.format(text)
+                vb.finding_key = f"act/{rname}: panic in the semantic action"
+                res.add(vb)
+            else:
+                nret += 1
+        if ob.status == "discharged":
+            ob.detail = f"{len(outs)} paths ({nret} return, {npanic} panic) for every text of <= {N} bytes matched by {pat.strip()!r}"
+            ob.witness = nret > 0
+        ob.queries, ob.solver_s = ex.queries, round(ex.solver_s, 3)
+        res.functions.update(ex.encoded)
+        res.add(ob)
+
+
 def hex_family(world: World, res: Result, tier: str):
     """Program::from_hex on an arbitrary (valid UTF-8) string: everything it does BEFORE handing bytes to the CBOR / flat layers -
     with hex::decode and from_cbor replaced by havoc stubs (any Ok / Err) - must not panic (slicing at a non-boundary, unwrap, ...)"""
@@ -482,14 +719,14 @@ def run(tier: str, seed: int, only=None) -> Result:
         "mirsym trusted base: MIR interpreter + library summaries",
         "String::from_utf8, PlutusData::decode_fragment (minicbor) and blst uncompress return Ok or Err and never panic (third-party contract)",
         "stack depth (recursion on deeply nested input) is not visible at MIR level and is outside the claim",
-        "CBOR/hex layers, serde/JSON loading, the Aiken lexer/parser/formatter and the peg UPLC grammar as a whole are outside the claim (PARTIAL); of the UPLC text grammar only the semantic action that can panic (builtin name lookup) is encoded",
+        "CBOR/hex layers, serde/JSON loading, the Aiken lexer/parser/formatter and the peg UPLC grammar as a whole are outside the claim (PARTIAL); of the UPLC text grammar the semantic actions over matched text are encoded (builtin-name lookup; every rule of shape `x:$(PATTERN) {action}` with the captured text ranging over the regular language of PATTERN read from the grammar source, <= 24/40 bytes); the peg matching code itself is not",
     ]
     res.extra["explanation"] = ("each decoding function is executed symbolically once from an arbitrary decoder state under the representation "
                                 "invariant on a fully symbolic buffer; z3 decides that no panic path is feasible and the invariant is preserved")
     res.extra["trusted_base"] = ["rustc nightly MIR dump (uplc, pallas-codec)", "mirsym/exec.py", "mirsym/summaries.py", "z3 5.1"]
     kf = KnownFindings()
     world = World(("uplc",), deps=("pallas-codec",))
-    for fam, f in (("prim", prim_family), ("dec", dec_family), ("act", act_family), ("hex", hex_family)):
+    for fam, f in (("prim", prim_family), ("dec", dec_family), ("act", act_family), ("act-captures", capture_family), ("hex", hex_family)):
         if only and only not in fam:
             continue
         t = time.time()
